@@ -150,7 +150,33 @@ fn fam_satscale(rng: &mut Rng, n: usize, out: &mut Out) {
     }
 }
 
+fn unwrap_more(rng: &mut Rng, out: &mut Out) {
+    // other instantiations of Unwrapper<Q>::update::<P> and the phase::<P>() getter
+    macro_rules! one {
+        ($q:ty, $wq:expr, $p:ty, $wp:expr) => {{
+            let y = rng.int($wq) as $q;
+            let x = rng.int($wp) as $p;
+            let mut u = Unwrapper::<$q>::verif_from_raw(y);
+            let dx: $p = u.update(x);
+            out.emit(&format!("unwrap {} {} {} {}", $wq, $wp, y, x), Some(format!("{} {}", u.y(), dx)));
+            let ph: $p = u.phase();
+            out.emit(&format!("unwrap_phase {} {}", $wp, u.y()), Some(ph.to_string()));
+        }};
+    }
+    match rng.below(6) {
+        0 => one!(i128, 128, i64, 64),
+        1 => one!(i128, 128, i32, 32),
+        2 => one!(i64, 64, i16, 16),
+        3 => one!(i64, 64, i8, 8),
+        4 => one!(i32, 32, i8, 8),
+        _ => one!(i64, 64, i32, 32),
+    }
+}
+
 fn fam_unwrap(rng: &mut Rng, n: usize, out: &mut Out) {
+    for _ in 0..(n / 10) {
+        unwrap_more(rng, out);
+    }
     let mut y64 = 0i64;
     let mut y32 = 0i32;
     let mut x32 = 0i32;
@@ -447,6 +473,13 @@ macro_rules! cic_run {
             }
         }
         for _ in 0..$len {
+            if rng.chance(1, 25) {
+                // `clear()` in the middle of a stream: back to the state of `new(rate)`
+                let (r0, i0, z0, c0, n0) = c.verif_raw();
+                c.clear();
+                let (_, i, z, cs, ns) = c.verif_raw();
+                out.emit(&format!("cic_clear {} {} {} {} {}", r0, i0, z0, list(&c0), list(&n0)), Some(format!("{} {} {} {}", i, z, list(&cs), list(&ns))));
+            }
             let (r0, i0, z0, c0, n0) = c.verif_raw();
             if $dec {
                 let x = if small { rng.range(-8, 8) as i128 } else { rng.int(w) } as $t;
@@ -1383,6 +1416,35 @@ fn fam_coeff(rng: &mut Rng, n: usize, out: &mut Out) {
     }
 }
 
+/// apply the PidBuilder setters in a random order (limits before gains, period/order last, overwritten values):
+/// the result must depend only on the final values
+pub fn pid_setup(rng: &mut Rng, b: &mut idsp::iir::PidBuilder<f64>, period: f64, order: idsp::iir::Order, gains: &[f64; 5], limits: &[f64; 5]) {
+    use idsp::iir::Action;
+    let acts = [Action::I2, Action::I, Action::P, Action::D, Action::D2];
+    let mut steps: Vec<u8> = (0..12).collect();
+    for i in (1..steps.len()).rev() {
+        let j = rng.below(i as u64 + 1) as usize;
+        steps.swap(i, j);
+    }
+    if rng.chance(1, 4) {
+        for a in acts.iter() {
+            b.gain(*a, -3.0).limit(*a, 7.0);
+        }
+    }
+    for s in steps {
+        match s {
+            0..=4 => { if gains[s as usize] != 0.0 || rng.chance(1, 2) { b.gain(acts[s as usize], gains[s as usize]); } }
+            5..=9 => { b.limit(acts[s as usize - 5], limits[s as usize - 5]); }
+            10 => { b.period(period); }
+            _ => { b.order(order); }
+        }
+    }
+    // a zero gain that was never set equals the default; make sure overwritten gains are reset
+    for (j, a) in acts.iter().enumerate() {
+        if gains[j] == 0.0 { b.gain(*a, 0.0); }
+    }
+}
+
 fn fam_pid(rng: &mut Rng, n: usize, out: &mut Out) {
     use idsp::iir::{Action, Order, PidBuilder};
     let acts = [Action::I2, Action::I, Action::P, Action::D, Action::D2];
@@ -1392,19 +1454,13 @@ fn fam_pid(rng: &mut Rng, n: usize, out: &mut Out) {
         let order = [Order::P, Order::I, Order::I2][rng.below(3) as usize];
         let sign = if rng.chance(1, 4) { -1.0 } else { 1.0 };
         let mut b = PidBuilder::<f64>::default();
-        b.period(period).order(order);
         let mut gains = [0f64; 5];
         let mut limits = [f64::INFINITY; 5];
-        for (j, a) in acts.iter().enumerate() {
-            if rng.chance(1, 2) {
-                gains[j] = sign * dec(rng) * if i % 4 == 0 { 1e-3 } else { 1.0 };
-                b.gain(*a, gains[j]);
-            }
-            if rng.chance(1, 3) {
-                limits[j] = sign * dec(rng);
-                b.limit(*a, limits[j]);
-            }
+        for j in 0..5 {
+            if rng.chance(1, 2) { gains[j] = sign * dec(rng) * if i % 4 == 0 { 1e-3 } else { 1.0 }; }
+            if rng.chance(1, 3) { limits[j] = sign * dec(rng); }
         }
+        pid_setup(rng, &mut b, period, order, &gains, &limits);
         let lhs = |w: u32, q: u32| format!("f_pid {} {} {} {} {} {}", w, q, period.to_bits(), order as usize, list(&gains.map(|v| v.to_bits())), list(&limits.map(|v| v.to_bits())));
         // integer coefficient types only in the checked profile (an overflowing build must panic there; in release it wraps)
         match if crate::MODE == 'C' { i % 4 } else { 0 } {
